@@ -63,7 +63,7 @@ def gen_file(rng, tier, i, mode):
     paren = False
     if rng.random() < 0.5:
         opts["quiet"] = True
-    if rng.random() < 0.25 and fmt != "discobrackets":
+    if rng.random() < 0.25:
         opts["replace_parens"] = True
         paren = True
     allow = cm.word_classes_for(enc, paren=paren)
